@@ -206,6 +206,7 @@ pub fn judge(base: &Base, m: &Mutation, path: &std::path::Path, extra_commit: bo
 }
 
 fn judge_inner(base: &Base, m: &Mutation, path: &std::path::Path, extra_commit: bool, touched_semantic: bool) -> Verdict {
+    crate::report::progress();
     let reg = if m.bytes.len() == 1 { region(m.bytes[0].0).to_string() } else { m.what.clone() };
     let damaged_is_newest = m.slot == base.newest_slot;
     let intact_state = if damaged_is_newest { &base.s_prev } else { &base.s_new };
